@@ -195,7 +195,9 @@ def main():
                     pats.append(frozenset([k + 1]) if n == 2 * k + 3 else frozenset([k + 2]))
                     if thorough and k >= 2: pats.append(frozenset([k, k + 1]))   # triple knot
                     if thorough: pats.append(frozenset([0]))       # repeated first knot
-                if Float == "double" and k >= 4 and not thorough: continue
+                # over the fraction field float<->double casts are the identity: the double instantiation repeats the same
+                # identities, so it is only run for the low orders (it still has to extract, compile and execute)
+                if Float == "double" and k >= 3: continue
                 for pat in pats:
                     for cell in E.cells(n, k, pat):
                         tasks_a.append((Float, k, n, pat, cell))
